@@ -70,9 +70,9 @@ def key_first(t, key):
                  for i in range(0, len(kv), 2)]
         front = [p for p in pairs if p[0] == key]
         rest = [p for p in pairs if p[0] != key]
-        return ['m', [x for p in front + rest for x in p]]
+        return ['m', [x for p in front + rest for x in p]] + t[2:]
     if t[0] == 'q':
-        return ['q', [key_first(x, key) for x in t[1]]]
+        return ['q', [key_first(x, key) for x in t[1]]] + t[2:]
     return t
 
 
@@ -140,8 +140,127 @@ def check_case(case):
     return errs, n
 
 
+def projt(n):
+    """like proj, with the tags of collections that are not the default"""
+    if isinstance(n, yaml.ScalarNode):
+        return proj(n)
+    if isinstance(n, yaml.SequenceNode):
+        r = ['q', [projt(x) for x in n.value]]
+        return r if n.tag == PRE + 'seq' else r + [n.tag]
+    out = []
+    for k, v in n.value:
+        out.append(k.value if isinstance(k, yaml.ScalarNode) else projt(k))
+        out.append(projt(v))
+    r = ['m', out]
+    return r if n.tag == PRE + 'map' else r + [n.tag]
+
+
+def all_nodes(n, acc):
+    acc.append(n)
+    if isinstance(n, yaml.SequenceNode):
+        for x in n.value:
+            all_nodes(x, acc)
+    elif isinstance(n, yaml.MappingNode):
+        for k, v in n.value:
+            all_nodes(k, acc)
+            all_nodes(v, acc)
+    return acc
+
+
+def _transform(node, which, case):
+    val = case['val'] or None
+    if which == 's2m':
+        node.seq_attribute_to_map('items', case['key'], val, case['strict'])
+    elif which == 'm2s':
+        node.map_attribute_to_seq('items', case['key'], val)
+    elif which == 'i2m':
+        node.index_attribute_to_map('items', case['key'], val)
+    else:
+        node.map_attribute_to_index('items', case['key'], val)
+
+
+def _items_of(root):
+    for k, v in root.value:
+        if isinstance(k, yaml.ScalarNode) and k.value == 'items':
+            return v
+    return None
+
+
+def structure_laws(case):
+    """Two laws on the real node graph that the data-level comparison cannot
+    see: (1) a transform of a tree gives a tree (no node object occurs at two
+    places: the loader rewrites nodes in place, so a shared node would couple
+    two positions); (2) items written in the long form keep an explicit tag
+    through an inverse pair of transforms."""
+    y = Y()
+    errs = []
+    n = 0
+    inp = norm(case['node'])
+    for which in ('s2m', 'm2s', 'i2m', 'm2i'):
+        if which != 's2m' and case['strict']:
+            continue
+        exp = norm(case[which])
+        if exp in (['OOD'], ['ERR']):
+            continue
+        node = y.Node(build(inp))
+        try:
+            _transform(node, which, case)
+        except Exception:  # noqa  (judged by check_case)
+            continue
+        n += 1
+        nodes = all_nodes(node.yaml_node, [])
+        if len({id(x) for x in nodes}) != len(nodes):
+            errs.append('%s on the tree %s gives a graph in which one node '
+                        'object occurs at two places' % (
+                            NAMES[which], json.dumps(inp)))
+    for fwd, bwd in (('s2m', 'm2s'), ('i2m', 'm2i')):
+        if case['strict'] or norm(case[fwd]) in (['OOD'], ['ERR']):
+            continue
+        root = build(inp)
+        items = _items_of(root)
+        if items is None:
+            continue
+        kids = (items.value if isinstance(items, yaml.SequenceNode) else
+                [v for _, v in items.value]
+                if isinstance(items, yaml.MappingNode) else [])
+        maps = [k for k in kids if isinstance(k, yaml.MappingNode)]
+        if not maps:
+            continue
+        for m in maps:
+            m.tag = '!It'
+        before = projt(root)
+        node = y.Node(root)
+        try:
+            _transform(node, fwd, case)
+            mid = _items_of(node.yaml_node)
+            if mid is None or not isinstance(mid, yaml.MappingNode) or any(
+                    not isinstance(v, yaml.MappingNode)
+                    for _, v in mid.value):
+                continue        # an item went to the short form: no claim
+            _transform(node, bwd, case)
+        except Exception:  # noqa
+            continue
+        n += 1
+        after = node.yaml_node
+        if key_first(proj(after), case['key']) != \
+                key_first(proj(build(inp)), case['key']):
+            continue            # outside the inverse law (judged elsewhere)
+        if key_first(projt(after), case['key']) != \
+                key_first(before, case['key']):
+            errs.append('%s then %s on %s with items tagged !It: the data is '
+                        'restored but the tags are not: %s' % (
+                            NAMES[fwd], NAMES[bwd], json.dumps(inp),
+                            json.dumps(projt(after))))
+    return errs, n
+
+
 def _chunk(cases):
-    return [check_case(c) for c in cases]
+    out = []
+    for c in cases:
+        e1, n1 = check_case(c)
+        e2, n2 = structure_laws(c)
+        out.append((e1 + e2, n1 + n2))
+    return out
 
 
 def dash_cases(maxlen):
@@ -207,6 +326,7 @@ def run(tier, replay=None):
     if replay:
         rec = json.load(open(replay))
         errs, _ = check_case(rec['case']['case'])
+        errs += structure_laws(rec['case']['case'])[0]
         for e in errs:
             print(e)
         return 1 if errs else 0
